@@ -77,6 +77,16 @@ def mesh_check(ax, case, rec):
             full = fem.mesh.read(fn)
             Pf = np.asarray(full.meshes[0].points)
             rec.require("points-padded-with-zeros-on-write", Pf.shape[1] == 3 and np.array_equal(Pf[:, : mesh.dim], P1) and not np.any(Pf[:, mesh.dim :]), list(Pf.shape))
+    if fmt == "vtu" and mesh.cell_type is not None and mesh.cell_type in dict(fem.mesh.cell_types()):
+        # the in-memory route of the same round trip: Mesh -> pyvista.UnstructuredGrid -> MeshContainer
+        grid = mesh.as_unstructured_grid()
+        back = fem.MeshContainer.from_unstructured_grid(grid, dim=mesh.dim)
+        ok = len(back.meshes) == 1
+        if ok:
+            mb = back.meshes[0]
+            ok = (mb.cell_type == mesh.cell_type and np.array_equal(np.asarray(mb.cells), np.asarray(mesh.cells))
+                  and np.asarray(mb.points).shape == np.asarray(mesh.points).shape and np.allclose(np.asarray(mb.points), np.asarray(mesh.points), rtol=0, atol=0))
+        rec.require("unstructured-grid-round-trip", bool(ok), {"blocks": len(back.meshes), "type": [m_.cell_type for m_ in back.meshes]})
 
 
 # ---------------------------------------------------------------------------------------------------------------
